@@ -2,7 +2,7 @@
 import ast
 
 from .. import handrules, serial
-from ..core import U, bind_call, paths_of, positional_params
+from ..core import path_facts, U, bind_call, paths_of, positional_params
 from ..registries import handlers
 
 TITLE = "A quantized tensor's reported metadata always matches what it holds"
@@ -139,16 +139,42 @@ def moves_rule(chk, r2="C06.R2", r4="C06.R4"):
                 if p.end[0] != "return":
                     continue
                 f = handrules.ctor_fields(repo, "QBytesTensor", p.end[1]) if handrules.is_ctor(p.end[1]) else None
+                pf = path_facts(p)
+                float_dtype = pf.get("dtype is None") is True or pf.get("dtype.is_floating_point") is True or any(
+                    v is False and "dtype is not None" in k and "not dtype.is_floating_point" in k and " or " not in k for k, v in pf.items()) or any(
+                    v is True and "dtype is None" in k and " or dtype.is_floating_point" in k and " and " not in k for k, v in pf.items())
                 if f is None:
-                    chk.unknown(r4, site, "QBytes _to_copy does not return a constructor call")
+                    # a move to a non-floating dtype cannot keep the tensor quantized (the scale would be cast to an integer): it converts the dequantized values
+                    e_ = p.end[1]
+                    fallback = handrules.is_op_call(e_) and [U(a) for a in e_.args] == [f"{x}.dequantize()"] and {k.arg: U(k.value) for k in e_.keywords} == {"dtype": "dtype", None: kwn}
+                    if fallback and pf.get("dtype is None") is False and pf.get("dtype.is_floating_point") is False:
+                        chk.ok(r4, f"{h.mi.rel}:{p.end[2]}", f"QBytes {h.name}: a move to a non-floating dtype converts the dequantized values (`{U(e_)[:60]}`)")
+                    else:
+                        chk.unknown(r4, site, "QBytes _to_copy does not return a constructor call")
                     continue
                 d, s = f["data"], f["scale"]
                 dkw = {k.arg: U(k.value) for k in d.keywords} if isinstance(d, ast.Call) else {}
                 skw = {k.arg: U(k.value) for k in s.keywords} if isinstance(s, ast.Call) else {}
                 ok_d = handrules.is_op_call(d) and [U(a) for a in d.args] == [f"{x}._data"] and dkw.get("dtype") == f"{x}._data.dtype" and dkw.get(None) == kwn
-                ok_s = handrules.is_op_call(s) and [U(a) for a in s.args] == [f"{x}._scale"] and skw.get("dtype") == "dtype" and skw.get(None) == kwn
+                # the scale takes the other arguments too, except the memory format (it describes the layout of the data; a 0-dim scale cannot be channels_last)
+                no_mf = (f"{{k: v for (k, v) in {kwn}.items() if k != 'memory_format'}}", f"{{k: v for k, v in {kwn}.items() if k != 'memory_format'}}")
+                ok_s = handrules.is_op_call(s) and [U(a) for a in s.args] == [f"{x}._scale"] and skw.get("dtype") == "dtype" and skw.get(None) in (kwn,) + no_mf
+                chk.require(r4, f"{h.mi.rel}:{p.end[2]}", skw.get(None) in no_mf or "memory_format" in skw and False, f"QBytes {h.name}: the memory format is not forwarded to the scale (`**{skw.get(None)}`)", h.name, "memory_format forwarded to the scale",
+                            "q.to(memory_format=torch.channels_last) on a rank-4 per-tensor quantized tensor: RuntimeError `required rank 4 tensor` from the 0-dim scale (the float program is valid)")
+                chk.require(r4, f"{h.mi.rel}:{p.end[2]}", float_dtype, f"QBytes {h.name}: the requested dtype reaches the scale only when it is None or floating point (path: {' & '.join(p.cond_texts())[:60]})", h.name, "scale cast to a non-floating dtype",
+                            "q.to(torch.int32): the scale 0.79 becomes 0, the result reports int32, dequantizes to int8 and is all zeros where the float program gives trunc(x)")
                 chk.require(r4, f"{h.mi.rel}:{p.end[2]}", ok_d, f"QBytes {h.name}: payload moved as `{U(d)[:70]}` keeping its own dtype, other arguments forwarded", h.name, "payload keeps dtype on move", "q.to(torch.float16): the codes are cast to float16 and no longer match the qtype")
                 chk.require(r4, f"{h.mi.rel}:{p.end[2]}", ok_s, f"QBytes {h.name}: scale moved as `{U(s)[:70]}` with the requested dtype, other arguments forwarded", h.name, "scale takes requested dtype", "q.to(dtype) / q.to(device): dtype or device of the scale not updated")
+    for h in hs["qbytes"]:
+        if "aten.clone" in h.ops:
+            x = positional_params(h.fn)[1]
+            for p in paths_of(h.fn):
+                if p.end[0] == "return" and handrules.is_ctor(p.end[1]):
+                    f = handrules.ctor_fields(repo, "QBytesTensor", p.end[1])
+                    s_ = f["scale"] if f else None
+                    kws = [k.arg for k in s_.keywords] if isinstance(s_, ast.Call) else []
+                    chk.require(r4, f"{h.mi.rel}:{p.end[2]}", "memory_format" not in kws, f"QBytes {h.name}: the memory format is not forwarded to the clone of the scale (`{U(s_)[:50]}`)", h.name, "memory_format forwarded to the scale",
+                                "q.clone(memory_format=torch.channels_last) on a rank-4 per-tensor quantized tensor: RuntimeError from the 0-dim scale")
     for h in hs["qbits"]:
         fn = h.fn
         x = positional_params(fn)[1]
